@@ -438,6 +438,7 @@ where
                             // the contents of the new one.
                             stream.ldap = new_stream.ldap;
                             stream.rx = new_stream.rx;
+                            stream.msgid = new_stream.msgid;
                             // The result of the page just read is not the result of the
                             // search: finish() before the end must report cancellation.
                             stream.res = None;
